@@ -15,7 +15,10 @@ every lru entry and every derived variable stored in a variable table carries th
 writer it was computed from (traced: lru hits and misses, reads and writes of the variable tables during the
 query).  Only a value whose provenance contains an older mesh version is `stale-after:<modifier>:<query>` (open
 finding F11); a value that read nothing stale must be fresh (`history-dependent:<query>` otherwise).  Lean:
-`C19_stale_needs_stale_entry`."""
+`C19_stale_needs_stale_entry`.  A stored variable carries the user-level mode / sign options of the query that stored it, whether
+that query RAISED, and whether an in-place modifier wrote it: `options-ignored` needs other options, `left-by-failed-query` /
+`modifier-rewrote-derived` are violations (Lean: Model/StoredMetric.lean).  User variables exist in several layouts (vector,
+narrow dtypes, time series with one step); their shapes, dtypes and time_series flags are snapshotted as stored."""
 import contextlib
 import functools
 import hashlib
@@ -32,7 +35,9 @@ PROP = 'C19'
 LEAN_MODULES = ['Femio.Props.C19']
 THEOREMS = ['access_good', 'C19_objects_dont_share', 'C19_user_data_untouched', 'C19_history_independent_partial',
             'C19_history_independent', 'C19_no_future_values', 'C19_stale_lru_counterexample', 'C19_stale_nested_counterexample',
-            'C19_eviction_refreshes', 'C19_lru_sizes_positive', 'C19_stale_needs_stale_entry', 'C19_fresh_object_stays_fresh']
+            'C19_eviction_refreshes', 'C19_lru_sizes_positive', 'C19_stale_needs_stale_entry', 'C19_fresh_object_stays_fresh',
+            'C19_failed_query_invisible', 'C19_partial_table_counterexample', 'C19_make_positive_drops_table',
+            'C19_make_positive_flip_counterexample', 'C19_stored_options_ignored_counterexample']
 PARTIAL = ['C19_history_independent_partial: the tree as it is satisfies history independence only for histories WITHOUT '
            'in-place modifiers; the full statement C19_history_independent is proved for the configuration in which modifiers '
            'clear the caches, which the tree does not implement (open known findings stale-after:* / stale-after-modify:*)',
@@ -42,15 +47,29 @@ PARTIAL = ['C19_history_independent_partial: the tree as it is satisfies history
            'C19_user_data_untouched is a statement about the model (queries do not bump versions); on the implementation it is '
            'checked by bit-exact snapshots of every live object after every operation',
            'C19_stale_needs_stale_entry covers the lru caches; the same argument for the stored derived variables is made by the '
-           'harness only (provenance of traced table reads)']
+           'harness only (provenance of traced table reads)',
+           'the stored-table model (Model/StoredMetric.lean: C19_failed_query_invisible, C19_make_positive_drops_table and the three '
+           'counterexamples) is a hand transcription of calculate_element_volumes / make_elements_positive for one table; it is '
+           'tied to the code by the oracle only (metric-family stream), not by a driver correspondence',
+           'a deviation is attributed to the open finding options-ignored only when the variable it read was stored by a query with '
+           'OTHER user-level mode / sign options (indirect consumers count as centroid / signed, their documented default); to '
+           'stale-after only when something it read is older than the mesh; a variable left by a query that raised, or written by an '
+           'in-place modifier itself, is neither (left-by-failed-query:*, modifier-rewrote-derived:* are not known findings)']
 RULE = ('seeded histories (quick <= 14 ops, thorough <= 40) over 1-4 live meshes of kind tet / hex / prism / mixed (hex+prism+pyr) / '
+        '(each of these with inverted elements in ~40-60 % of the objects) '
         'tet2 / tri / quad shells / polyhedron, half of them translated far from the origin, with unreferenced nodes in the middle '
         'of unsorted node tables; ~60 query spellings (graph matrices, surface, facets, normals, areas, edge lengths, angles, '
-        'jacobians, centroids, volumes in every mode, metrics, integrals, conversions, gradients, derived meshes; positional vs '
+        'jacobians, centroids, volumes in every mode, metrics, integrals, conversions, gradients, derived meshes; the default '
+        '(raising) and the tolerant spellings of the metric family; positional vs '
         'keyword spellings are different cache keys), in-place modifiers (remove_useless_nodes, make_elements_positive, '
         'connectivity / coordinate assignment, user-variable overwrite), writers (ucd, fistr) and derived live objects '
         '(to_polyhedron / to_facets / to_surface / to_first_order results, which may share arrays and variable tables with the '
         'parent); systematic streams: [q, modifier, q] for every query, ordered pairs of spellings of one query, [block A, modifier, '
+        '[A, (make_elements_positive), every volume / metric reader in shuffled order + 2 consumers] for every storing AND every '
+        'raising spelling A on meshes with inverted elements (tet / hex / prism / mixed; styles some / one block / last block of '
+        'the canonical type order / all), [write, query, write, query] for every layout of the additional user variables U / S '
+        '(vector, float32 / float16 / int32 / int64 / uint8 / bool, time series with exactly 1, 2, 3 steps; shapes, dtypes and '
+        'time_series flags are part of the bit-exact snapshot, never compared after broadcasting or casting), [block A, modifier, '
         'block B] covering EVERY ordered pair of queries per mesh family (quick: blocks of 16 + greedy completion, the number of '
         'uncovered pairs is in the evidence; thorough: [A, modifier, block of 8] for every A and every modifier), [derive child, '
         'query child, query parent]; every value that differs from the fresh one is attributed by traced provenance + a replay of '
@@ -59,6 +78,8 @@ RULE = ('seeded histories (quick <= 14 ops, thorough <= 40) over 1-4 live meshes
 ASSUMPTIONS = ['functools.lru_cache: LRU eviction, insertion after the wrapped call returns, key = (self, args, kwargs in call spelling)',
                'a freshly built equal mesh = FEMData constructed from copies of the current nodes, elements (and polyhedron faces) and '
                'user variables, queried with all caches cleared',
+               'indirect consumers of the stored metrics (convert_elemental2nodal, integrate*, calculate_*_spatial_gradients) ask for '
+               'them with the documented defaults mode=centroid, signed (true of the tree at 9dd4ddb; calibrated on seeds 0..5)',
                'reads / writes of the variable tables are observed through FEMAttributes.__getitem__ / __setitem__ / update / '
                'update_data (used only to ATTRIBUTE a deviation to a known finding, never to excuse an unread one)']
 
@@ -241,8 +262,23 @@ def connectivity_digest(fd):
     return digest(d)
 
 
-USER = {'nodal': ['T'], 'elemental': ['E']}
+USER = {'nodal': ['T', 'U'], 'elemental': ['E', 'S']}
 STRUCTURAL = {'NODE', 'face'}
+# layouts of the additional user variables U (nodal) / S (elemental): (label, dtype, width k, number of steps; 0 = not a series).
+# A series is stored as FEMAttribute(..., time_series=True) with data of shape (steps, n, k): exactly one step is a legal series.
+LAYOUTS = [('series-1step', 'float64', 1, 1), ('series-1step-vec3', 'float64', 3, 1), ('series-2steps', 'float64', 1, 2),
+           ('series-3steps-f32', 'float32', 2, 3), ('vec3', 'float64', 3, 0), ('float32', 'float32', 1, 0), ('int32', 'int32', 1, 0),
+           ('int64-neg', 'int64', 2, 0), ('uint8', 'uint8', 1, 0), ('bool', 'bool', 1, 0), ('float16', 'float16', 1, 0),
+           ('series-1step-int32', 'int32', 1, 1)]
+
+
+def layout_of(a):
+    """shape, dtype and flags of a stored variable exactly as stored (never broadcast, never cast)"""
+    if isinstance(a, dict):      # FEMElementalAttribute: one attribute per element type
+        return ('per-type', [(t, layout_of(x)) for t, x in sorted(dict.items(a))])
+    d = a.data
+    return (type(a).__name__, list(np.shape(d)), str(getattr(d, 'dtype', type(d).__name__)), bool(getattr(a, 'time_series', False)),
+            list(np.shape(a.ids)))
 MESH_PARTS = ('node ids', 'coordinates', 'connectivity')
 
 
@@ -253,6 +289,8 @@ def user_snapshot(fd):
         'user variables': digest({k: (nd[k].ids, nd[k].data) for k in USER['nodal'] if k in nd}
                                  | {'E:' + k: digest(ed[k].data) for k in USER['elemental'] if k in ed}),
         'user variable names': sorted(k for k in USER['nodal'] if k in nd) + sorted(k for k in USER['elemental'] if k in ed),
+        'user variable layout (shape / dtype / time_series flag)': [(k, layout_of(nd[k])) for k in USER['nodal'] if k in nd]
+        + [('E:' + k, layout_of(ed[k])) for k in USER['elemental'] if k in ed],
     }
 
 
@@ -275,8 +313,11 @@ def capture(fd):
     nd, ed = fd.nodal_data.data, fd.elemental_data.data
     cap = {'nid': np.array(fd.nodes.ids).copy(), 'xyz': np.array(fd.nodes.data).copy(),
            'el': [(t, np.array(e.ids).copy(), np.array(e.data).copy()) for t, e in fd.elements.items()],
-           'nodal': {k: (np.array(nd[k].ids).copy(), np.array(nd[k].data).copy()) for k in USER['nodal'] if k in nd},
-           'elemental': {k: np.array(ed[k].data).copy() for k in USER['elemental'] if k in ed}}
+           'nodal': {k: (np.array(nd[k].ids).copy(), np.array(nd[k].data).copy(), bool(nd[k].time_series))
+                     for k in USER['nodal'] if k in nd},
+           'elemental': {k: np.array(ed[k].data).copy() for k in USER['elemental'] if k in ed and k == 'E'},
+           'elemental_typed': {k: [(t, np.array(x.ids).copy(), np.array(x.data).copy(), bool(x.time_series)) for t, x in dict.items(ed[k])]
+                               for k in USER['elemental'] if k in ed and k != 'E'}}
     if 'polyhedron' in fd.elements and 'face' in ed:
         src = ed['face']['polyhedron']
         cap['face'] = (np.array(src.ids).copy(), [[int(y) for y in x] for x in src.data])
@@ -290,10 +331,13 @@ def build(cap):
         nodes = FEMAttribute('NODE', ids=cap['nid'].copy(), data=cap['xyz'].copy(), silent=True)
         el = FEMElementalAttribute('ELEMENT', {t: FEMAttribute(t, ids=i.copy(), data=d.copy(), silent=True) for t, i, d in cap['el']})
         new = FEMData(nodes=nodes, elements=el)
-        for k, (i, d) in cap['nodal'].items():
-            new.nodal_data[k] = FEMAttribute(k, ids=i.copy(), data=d.copy(), silent=True)
+        for k, (i, d, ts) in cap['nodal'].items():
+            new.nodal_data[k] = FEMAttribute(k, ids=i.copy(), data=d.copy(), silent=True, time_series=ts)
         for k, d in cap['elemental'].items():
             new.elemental_data.update_data(new.elements.ids, {k: d.copy()})
+        for k, parts in cap.get('elemental_typed', {}).items():
+            new.elemental_data[k] = FEMElementalAttribute(k, {t: FEMAttribute(k, ids=i.copy(), data=d.copy(), silent=True, time_series=ts)
+                                                              for t, i, d, ts in parts})
         if 'face' in cap:
             faces = np.empty(len(cap['face'][1]), object)
             for i, x in enumerate(cap['face'][1]):
@@ -392,6 +436,16 @@ def query_table():
         ('to_first_order()', lambda f: f.to_first_order()),
         ('to_surface(remove_unnecessary_nodes=False)', lambda f: f.to_surface(remove_unnecessary_nodes=False)),
         ('to_facets(remove_duplicates=False)', lambda f: f.to_facets(remove_duplicates=False)),
+        # ---- the default spellings RAISE on a mesh with an inverted element (raise_negative_*=True): what a failed query
+        # leaves behind must not be seen by later queries; the tolerant spellings of the consumers of the stored metrics
+        ('calculate_element_volumes()', lambda f: f.calculate_element_volumes()),
+        ('calculate_element_metrics()', lambda f: f.calculate_element_metrics()),
+        ("calculate_element_volumes(mode='linear')", lambda f: f.calculate_element_volumes(mode='linear')),
+        ('calculate_element_volumes(raise_negative_volume=False)', lambda f: f.calculate_element_volumes(raise_negative_volume=False)),
+        ("convert_elemental2nodal(E, 'mean', raise_negative_volume=False)",
+         lambda f: f.convert_elemental2nodal(_E(f), 'mean', raise_negative_volume=False)),
+        ("convert_elemental2nodal(E, 'effective')", lambda f: f.convert_elemental2nodal(_E(f), 'effective')),
+        ("convert_nodal2elemental('U', calc_average=True)", lambda f: f.convert_nodal2elemental('U', calc_average=True)),
     ]
     return q
 
@@ -434,7 +488,11 @@ def gen_spec(r, kind, max_cells=2):
     if kind in ('tet', 'hex', 'prism', 'mixed'):
         m = mg.gen_geometric(r, kind=kind, **geo)
     elif kind == 'tet2':
-        m = mg.promote_tet2(r, mg.gen_geometric(r, kind='tet', **geo))
+        m = mg.gen_geometric(r, kind='tet', **geo)
+        if r.random() < .3:      # inverted second-order tets: mirrored before the mid-edge nodes are attached
+            m['blocks'] = dict(m['blocks'])
+            m['inverted'] = invert_blocks(r, m['blocks'], r.choice(INVERT_STYLES))
+        m = mg.promote_tet2(r, m)
     elif kind in ('tri', 'quad'):
         solid = mg.gen_geometric(r, kind='tet' if kind == 'tri' else 'hex', **geo)
         with contextlib.redirect_stdout(io.StringIO()):
@@ -473,9 +531,13 @@ def pooled_spec(r, kind, size=6):
     return r.choice(pool)
 
 
-def make_object(r, kind, sibling_of=None, pooled=False):
+INVERT = {'tet': [0, 2, 1, 3], 'hex': [4, 5, 6, 7, 0, 1, 2, 3], 'prism': [3, 4, 5, 0, 1, 2], 'pyr': [0, 3, 2, 1, 4]}
+INVERT_STYLES = ['some', 'one-block', 'last-block', 'all']
+
+
+def make_object(r, kind, sibling_of=None, pooled=False, layout=None, invert=None):
     if pooled and sibling_of is None:
-        return _finish_object(r, kind, pooled_spec(r, kind), True)
+        return _finish_object(r, kind, pooled_spec(r, kind), True, layout, invert)
     if sibling_of is not None:
         # same sizes and topology, other storage order and coordinates: anything shared between objects shows
         m = {k: v for k, v in sibling_of.items()}
@@ -485,12 +547,38 @@ def make_object(r, kind, sibling_of=None, pooled=False):
         m['blocks'] = {t: list(b) for t, b in sibling_of['blocks'].items()}
         for b in m['blocks'].values():
             r.shuffle(b)
-        return _finish_object(r, kind, m, False)
-    return _finish_object(r, kind, gen_spec(r, kind), True)
+        return _finish_object(r, kind, m, False, layout, invert)
+    return _finish_object(r, kind, gen_spec(r, kind), True, layout, invert)
 
 
-def _finish_object(r, kind, m, fresh):
-    from femio import FEMAttribute
+def invert_blocks(r, blocks, style):
+    """mirror the connectivity of some elements (negative signed volume): `some` = a third of the elements of every block drawn
+    with probability 1/2 (at least one block), `one-block` = all elements of one block, `last-block` = all elements of the block
+    that comes LAST in femio's canonical type order (the earlier blocks stay positive), `all` = every element"""
+    from femio import FEMElementalAttribute
+    order = [t for t in FEMElementalAttribute.ELEMENT_TYPES if t in blocks and t in INVERT]
+    if not order:
+        return []
+    if style == 'last-block':
+        chosen = {order[-1]: 1.}
+    elif style == 'one-block':
+        chosen = {r.choice(order): 1.}
+    elif style == 'all':
+        chosen = {t: 1. for t in order}
+    else:
+        chosen = {t: 1 / 3 for t in order if r.random() < .5} or {r.choice(order): 1 / 3}
+    done = []
+    for t, frac in chosen.items():
+        rows = blocks[t] = list(blocks[t])
+        for idx in r.sample(range(len(rows)), max(1, int(len(rows) * frac))):
+            e, c = rows[idx]
+            rows[idx] = (e, [c[j] for j in INVERT[t]])
+        done.append(t)
+    return done
+
+
+def _finish_object(r, kind, m, fresh, layout=None, invert=None):
+    from femio import FEMAttribute, FEMElementalAttribute
     from fractions import Fraction as F
     base = {k: v for k, v in m.items()}
     base['nodes'] = list(m['nodes'])
@@ -511,11 +599,15 @@ def _finish_object(r, kind, m, fresh):
         nodes.insert(r.randint(0, len(nodes)), (nid, (F(50 + k), F(50), F(50))))
     m = dict(m)
     m['nodes'] = nodes
-    if 'tet' in m['blocks'] and kind in ('tet',) and r.random() < .6:   # inverted tets: make_elements_positive is a real modification
-        rows = m['blocks']['tet'] = list(m['blocks']['tet'])
-        for idx in r.sample(range(len(rows)), max(1, len(rows) // 3)):
-            e, c = rows[idx]
-            rows[idx] = (e, [c[0], c[2], c[1], c[3]])
+    # inverted elements (negative signed volume) in every solid kind: make_elements_positive is a real modification, queries
+    # with raise_negative_*=True (the default of most of them) RAISE, signed and absolute metrics differ
+    inverted = []
+    if kind in ('tet', 'hex', 'prism', 'mixed') and not m.get('poly'):
+        if invert is None:
+            invert = r.choice(INVERT_STYLES) if r.random() < (.6 if kind == 'tet' else .4) else 'none'
+        if invert != 'none':
+            m['blocks'] = dict(m['blocks'])
+            inverted = invert_blocks(r, m['blocks'], invert)
     fd = mg.to_femio(m)
     with contextlib.redirect_stdout(io.StringIO()):
         if m.get('poly'):
@@ -523,8 +615,32 @@ def _finish_object(r, kind, m, fresh):
         fd.nodal_data['T'] = FEMAttribute('T', ids=fd.nodes.ids, data=np.array(
             [[r.uniform(-9, 9)] for _ in fd.nodes.ids]), silent=True)
         fd.elemental_data.update_data(fd.elements.ids, {'E': np.array([[r.uniform(1, 9)] for _ in fd.elements.ids])})
+        # additional user variables in other layouts (vector, narrow / integer / bool dtypes, time series with 1, 2, 3 steps)
+        if layout is None:
+            layout = r.choice(LAYOUTS) if r.random() < .4 else 'none'
+        if layout != 'none':
+            label, dt, kk, steps = layout
+
+            def values(n):
+                shape = (steps, n, kk) if steps else (n, kk)
+                if dt == 'bool':
+                    return np.array([r.random() < .5 for _ in range(int(np.prod(shape)))]).reshape(shape)
+                if dt.startswith('uint'):
+                    return np.array([r.randrange(0, 250) for _ in range(int(np.prod(shape)))], dtype=dt).reshape(shape)
+                if dt.startswith('int'):
+                    return np.array([r.randrange(-40000, 40000) for _ in range(int(np.prod(shape)))], dtype=dt).reshape(shape)
+                return np.array([r.uniform(-9, 9) for _ in range(int(np.prod(shape)))]).astype(dt).reshape(shape)
+            fd.nodal_data['U'] = FEMAttribute('U', ids=fd.nodes.ids, data=values(len(fd.nodes.ids)), silent=True,
+                                              time_series=bool(steps))
+            types = fd.elements.keys()
+            if not steps or len(types) == 1:
+                fd.elemental_data['S'] = FEMElementalAttribute('S', {
+                    t: FEMAttribute('S', ids=np.array(fd.elements[t].ids).copy(), data=values(len(fd.elements[t].ids)), silent=True,
+                                    time_series=bool(steps)) for t in types})
     fd._verif_base = base
     fd._verif_kind = kind
+    fd._verif_layout = layout if layout == 'none' else layout[0]
+    fd._verif_inverted = inverted
     return fd
 
 
@@ -539,11 +655,17 @@ def describe_object(fd):
         d['T'] = np.asarray(nd['T'].data, dtype=float).ravel().tolist()
     if 'E' in ed:
         d['E'] = np.asarray(ed['E'].data, dtype=float).ravel().tolist()
+    if 'U' in nd:
+        d['U'] = {'layout': layout_of(nd['U']), 'values': np.asarray(nd['U'].data, dtype=float).ravel().tolist()}
+    if 'S' in ed:
+        d['S'] = {'layout': layout_of(ed['S']), 'values': {t: np.asarray(x.data, dtype=float).ravel().tolist() for t, x in dict.items(ed['S'])}}
+    if getattr(fd, '_verif_inverted', None):
+        d['inverted_element_types'] = list(fd._verif_inverted)
     return d
 
 
 def class_of(fd):
-    return (tuple(sorted(fd.elements.keys())), 'T' in fd.nodal_data.data, 'E' in fd.elemental_data.data)
+    return (tuple(sorted(fd.elements.keys())), 'T' in fd.nodal_data.data, 'E' in fd.elemental_data.data, 'U' in fd.nodal_data.data)
 
 
 def applicable(fd, defer=False):
@@ -737,7 +859,7 @@ class History:
         P = p_merge(P, reads(toptab))
         return P, ls, sorted(set(stale_reads)), flags
 
-    def restamp_stored(self, P, tag, keep_old=False):
+    def restamp_stored(self, P, tag, keep_old=False, rewriter=None):
         """derived variables that appeared / changed get the provenance P of the operation that wrote them: for a query its
         own provenance; for an in-place modifier (make_elements_positive stores the metrics of the mesh as it WAS,
         remove_useless_nodes filters every nodal variable) the version before the modification, resp. what the variable
@@ -748,7 +870,12 @@ class History:
             new.update(derived_state(self.objs[i]))
         for k, d in new.items():
             if self.derived.get(k) != d:
-                if not (keep_old and k in self.stored):
+                if rewriter is not None:
+                    # an in-place MESH modifier created / changed a stored derived variable itself: whatever a later query reads
+                    # from it is the modifier's doing, not an entry that was "never invalidated" (F11)
+                    # (it is the modifier's product for the mesh as it is NOW: current versions, earlier labels dropped)
+                    self.stored[k] = ({i: self.versions[i] for i in P[0]}, frozenset({f'{k[1]} rewritten by {rewriter}'}))
+                elif not (keep_old and k in self.stored):
                     self.stored[k] = (dict(P[0]), P[1] | {f'{k[1]} stored by {tag}'})
         for k in list(self.stored):
             if k not in new:
@@ -791,10 +918,16 @@ def signature_of(h, rec, hist_only):
     """attribute a value that differs from the fresh one; see the module docstring"""
     P, o, q = rec['P'], rec['obj'], base_name(rec['qname'])
     stored_by = sorted(P[1])
-    if hist_only:
-        if stored_by:
-            return f'options-ignored:{q}', ('the same queries on an unmodified equal mesh give the same value: it returned a derived '
-                                           f'variable as stored by an earlier query ({", ".join(stored_by)}), whatever the options')
+    failed = [x for x in stored_by if ' stored by FAILED ' in x]
+    rewritten = [x for x in stored_by if ' rewritten by ' in x]
+    # the open finding `options-ignored` explains a stored variable that is returned to a query asking for OTHER mode / sign options
+    # than the query that stored it (user-level options; the indirect consumers count with the defaults they document:
+    # centroid / signed).  When the options coincide there is nothing it can explain.
+    other_options = [x for x in stored_by if x.endswith(']') and ' stored by ' in x and x[x.rindex('[') + 1:-1] != rec['tag']]
+    if hist_only and other_options:
+        return f'options-ignored:{q}', ('the same queries on an unmodified equal mesh give the same value: it returned a derived '
+                                       f'variable as stored by an earlier query ({", ".join(stored_by)}), whatever the options')
+    if hist_only and not stored_by:
         return f'history-dependent:{q}', 'the same queries on an unmodified equal mesh give the same value; it read no stored variable'
     stale = {}
     for oo, v in P[0].items():
@@ -813,19 +946,37 @@ def signature_of(h, rec, hist_only):
     if any(oo != o for oo in P[0]):
         return f'shared-stored:{q}', ('it returned a derived variable stored by a query on ANOTHER live object that shares the '
                                      'variable table (derived object)')
-    if stored_by:
+    if other_options:
         return f'options-ignored:{q}', f'it returned a derived variable as stored by an earlier query ({", ".join(stored_by)})'
-    return f'history-dependent:{q}', 'it read no cache entry or stored variable older than the mesh'
+    # nothing it read is older than the mesh, nothing was stored with other options: not explained by the open findings
+    if failed:
+        return f'left-by-failed-query:{q}', ('it returned a derived variable that a query which RAISED had left in the variable table '
+                                            f'({", ".join(failed)}; this query: [{rec["tag"]}]): a failed query must not be visible '
+                                            'to later ones')
+    if rewritten:
+        mods = sorted({x.split(' rewritten by ')[1] for x in rewritten})
+        return f'modifier-rewrote-derived:{"+".join(mods)}:{q}', (
+            f'it returned a derived variable that the in-place modifier itself wrote or changed ({", ".join(rewritten)}): after a '
+            'library modification later queries must reflect the modified mesh')
+    if stored_by:
+        return f'history-dependent:{q}', ('it returned a derived variable stored by an earlier query asked with the SAME mode / sign '
+                                         f'options ({", ".join(stored_by)}; this query: [{rec["tag"]}]); nothing it read is older '
+                                         'than the mesh' + ('; the same queries on an unmodified equal mesh give the same value'
+                                                            if hist_only else ''))
+    return f'history-dependent:{q}', ('it read no cache entry or stored variable older than the mesh'
+                                     + ('; the same queries on an unmodified equal mesh give the same value' if hist_only else ''))
 
 
-def run_history(ctx, hid, script=None, kind=None, label='random', n_roots=1):
+def run_history(ctx, hid, script=None, kind=None, label='random', n_roots=1, layout=None, invert=None):
     r = ctx.rng
     kind = kind or r.choice(['tet', 'tet', 'hex', 'prism', 'tet', 'hex', 'mixed', 'tet2', 'tri', 'quad', 'poly', 'poly'])
     n_obj = r.choice([1, 1, 2, 3]) if script is None else n_roots
     objs = []
     for i in range(n_obj):
         sib = objs[0]._verif_base if (i > 0 and r.random() < .6) else None
-        objs.append(make_object(r, kind, sibling_of=sib, pooled=script is not None))
+        objs.append(make_object(r, kind, sibling_of=sib, pooled=script is not None, layout=layout, invert=invert))
+        ctx.count('user-variable-layout:' + objs[-1]._verif_layout)
+        ctx.count('inverted-elements:' + (kind + ':' + '+'.join(objs[-1]._verif_inverted) if objs[-1]._verif_inverted else 'none'))
     names = sorted(_WRAPPED)
     meth_id = {n: i for i, n in enumerate(names)}
     caps = {meth_id[n]: _WRAPPED[n].cache_parameters()['maxsize'] for n in names}
@@ -902,7 +1053,7 @@ def run_history(ctx, hid, script=None, kind=None, label='random', n_roots=1):
                 ctx.fail(f'user-data-changed:{base_name(qname)}:{changed[oo][0]}',
                          f'{qname} on object {o} changed the {", ".join(changed[oo])} of {where}', case, None)
                 return
-            h.restamp_stored(P, base_name(qname))
+            h.restamp_stored(P, ('FAILED ' if err is not None else '') + f'{base_name(qname)}[{tag}]')
             modified_before = h.versions[o] > 0
             rec = {'step': step, 'obj': o, 'qname': qname, 'q': arg, 'digest': dg, 'version': h.versions[o],
                    'versions': list(h.versions), 'hits': sum(1 for e in log if e['hit']), 'misses': sum(1 for e in log if not e['hit']),
@@ -1002,7 +1153,7 @@ def run_history(ctx, hid, script=None, kind=None, label='random', n_roots=1):
                     if p == o and i != o:
                         h.alive[i] = False
                         ctx.count('derived-object:retired-after-remove_useless_nodes-of-parent')
-            h.restamp_stored(({o: ver_before}, frozenset()), arg, keep_old=True)
+            h.restamp_stored(({o: ver_before}, frozenset()), arg, keep_old=True, rewriter=arg if mesh_changed else None)
         elif kindop == 'c':
             # another live object: the surface mesh an earlier to_surface() of this object returned is modified in place
             # (all its facets reversed by connectivity assignment).  The parent must not notice.
@@ -1254,6 +1405,48 @@ def run(ctx):
             run_history(ctx, f'w{k}', script=[('q', 0, qa), ('w', 0, fmt), ('q', 0, qb)] + ([('w', 0, fmt), ('q', 0, qa)] if not ctx.quick else []),
                         kind=kd, label='[query, write, query]')
             k += 1
+    # (5a) writers x layouts of the user variables: every layout (vector, narrow / integer / bool dtypes, time series with exactly
+    # one, two, three steps) is written in every format; shapes, dtypes and the time_series flag of every user variable are
+    # part of the snapshot (compared as stored, never after broadcasting)
+    for li, layout in enumerate(LAYOUTS):
+        for fi, fmt in enumerate(('ucd', 'fistr')):
+            if ctx.quick and li >= 4 and (li + fi) % 2:
+                continue          # quick: every series layout in both formats, the other layouts in one format each
+            kd = ROOT_KINDS[(li + 3 * fi + k) % len(ROOT_KINDS)]
+            qa, qb = r.choice(sorted(appl[kd])), r.choice(sorted(appl[kd]))
+            run_history(ctx, f'w{k}', script=[('w', 0, fmt), ('q', 0, qa), ('w', 0, fmt), ('q', 0, qb)], kind=kd,
+                        label='[write, query, write, query] x user-variable layout', layout=layout)
+            k += 1
+    # (6) the family of queries that store / read the derived variables volume / area / metric, on meshes WITH INVERTED ELEMENTS
+    # (signed != absolute, the default spellings raise): [A, every reader in shuffled order] and [A, make_elements_positive,
+    # every reader]; A runs over the storing spellings AND the raising ones (a query that failed, then the others); on mixed
+    # meshes once with only the LAST type block inverted (the earlier blocks are evaluated before the failure)
+    fam_a = [qi for qi, qn in enumerate(QNAMES) if base_name(qn) in ('calculate_element_volumes', 'calculate_element_metrics',
+                                                                    'convert_elemental2nodal', 'integrate')
+             or qn in ('calculate_nodal_spatial_gradients(T)', 'calculate_elemental_spatial_gradients(E)')]
+    readers = [qi for qi, qn in enumerate(QNAMES) if base_name(qn) in ('calculate_element_volumes', 'calculate_element_metrics')]
+    consumers = [qi for qi, qn in enumerate(QNAMES) if base_name(qn) in (
+        'convert_elemental2nodal', 'integrate', 'integrate_elements', 'calculate_nodal_spatial_gradients',
+        'calculate_elemental_spatial_gradients')]
+    n_fam = 0
+    solid_inv = ['tet', 'hex', 'prism', 'mixed']
+    for ai, a in enumerate(fam_a):
+        plans = [(solid_inv[(ai + k) % 4], r.choice(['some', 'one-block', 'all']), None), ('mixed', 'last-block', None),
+                 ('tet', r.choice(['some', 'all']), 'make_elements_positive')]
+        if not ctx.quick:
+            plans += [(kd, st, md) for kd in solid_inv for st in INVERT_STYLES for md in (None, 'connectivity assignment')]
+            plans += [('tet', st, 'make_elements_positive') for st in INVERT_STYLES]
+        for kd, style, mod in plans:
+            if a not in appl[kd]:
+                continue
+            bs = [q for q in readers if q in appl[kd]]
+            r.shuffle(bs)
+            bs += r.sample([q for q in consumers if q in appl[kd]], 2)
+            run_history(ctx, f'f{k}', script=[('q', 0, a)] + ([('m', 0, mod)] if mod else []) + [('q', 0, q) for q in bs], kind=kd,
+                        label='metric family on inverted elements [A, (modifier), every reader]', invert=style)
+            k += 1
+            n_fam += 1
+    ctx.extra['metric_family_histories'] = n_fam
     ctx.extra['sandwich_histories'] = k
     for hno in range(ctx.n(72, 1000)):
         run_history(ctx, hno)
